@@ -6,6 +6,8 @@ import ast
 
 from sa.paths import declared_nonnull, enumerate_paths
 from sa.astutil import (
+    knows,
+    only_knows,
     arg_or_kw,
     call_name,
     calls_in,
@@ -308,7 +310,7 @@ def r3_representation_switch(ctx):
     if ar is None:
         raise AnalysisError("Charge.array not found")
     sts = [s for s, t in stores(ar.node, lambda t: dotted(t) == "self._array")]
-    ok = len(sts) == 1 and norm(sts[0].value) == "self.convert_df_to_array()" and [(norm(t), pol) for t, pol in enclosing_tests(sts[0])] == [("not self._frame.empty", True)]
+    ok = len(sts) == 1 and norm(sts[0].value) == "self.convert_df_to_array()" and only_knows(enclosing_tests(sts[0]), "not self._frame.empty")
     rets = [r for r in returns_of(ar) if r.value is not None]
     ok = ok and len(rets) == 1 and dotted(rets[0].value) == "self._array"
     ctx.check(ok, ar.qual, "array view recomputed from the clusters whenever clusters exist" if ok else "the array view does not reflect the cluster table", where=ar, node=sts[0] if sts else ar.node)
@@ -330,7 +332,7 @@ def r4_reset(ctx):
     ok = len(st_fr) == 1 and "EMPTY_FRAME" in norm(st_fr[0].value)
     if ok:
         ts = enclosing_tests(st_fr[0])
-        ok = not ts or (len(ts) == 1 and ts[0][1] and norm(ts[0][0]) == "not self._frame.empty")
+        ok = not ts or only_knows(ts, "not self._frame.empty")
     ctx.check(ok, ce.qual + "#frame", "cluster table reset" if ok else "reset keeps clusters", where=ce, node=st_fr[0] if st_fr else ce.node)
 
 
